@@ -165,3 +165,52 @@ theorem cat_correct (input : List Char) (hne : input ≠ []) :
     exact ⟨trivial, by simpa using ho, he⟩
 
 end HyE
+
+namespace HyE
+open HyN HyP
+
+/-- the print command at index 5 with NaN on top of stack 3 (only on empty input): the NaN text is printed -/
+theorem cat_step5_nan (s : St NumI) (w : World) (hcur : s.cur = 3) (r : List NumI) (h3 : s.stacks 3 = HyN.nan :: r)
+    (hpt : s.points = []) :
+    ∃ s', step cat ⟨(s, w), 5⟩ = .ok ⟨(s', { w with out := w.out ++ nanText }), 6⟩ ∧ s'.cur = 3 ∧ s'.stacks 3 = r ∧
+      s'.stacks 0 = s.stacks 0 ∧ lookup s'.points 18 = some 5 := by
+  have hp : cat[5]? = some ⟨1, 1, 1, 1, .val 2 .nil .nil⟩ := rfl
+  have hpop : popWrap (s, w) 3 = .ok (HyN.nan, (setStack s 3 r, w)) :=
+    pop_plain s w 3 (by decide) (by decide) (by decide) _ _ h3
+  have hadd : NumOps.add (NumOps.zero : NumI) HyN.nan = HyN.nan := by decide
+  have hrend : NumOps.render (HyN.nan : NumI) = .text nanText := by decide
+  have hl : lookup s.points 18 = none := by rw [hpt]; rfl
+  refine ⟨{ (setStack s 3 r) with points := s.points ++ [(18, 5)] }, ?_, by simp [hcur], by simp, by simp [setStack], ?_⟩
+  · simp only [step, hp, stepCmd, execCmd, hcur, popN, hpop, Res.andThen, List.foldl_cons, List.foldl_nil, hadd, pushWrap,
+      show (1 = 1 ∨ 1 = 2) from Or.inl rfl, ↓reduceIte, hrend, emit, areaCalc, show ¬ (2 = 0) by decide, show ¬ (2 = 1) by decide,
+      jump, ne_eq, not_false_eq_true, show ¬ (2 = 13) by decide, setStack_points, hl, true_or, Nat.reduceMul, Nat.reduceAdd]
+  · exact lookup_append_new _ _ _ hl
+
+/-- On the empty input `cat` writes the NaN text and halts normally: a loop-until-end-of-input copier
+cannot be silent there (the first pass through the print command happens before the first test). -/
+theorem cat_empty : ∃ n, (runN cat n (initCfg [])).2 = .ended ∧ (runN cat n (initCfg [])).1.m.2.out = nanText ∧
+    (runN cat n (initCfg [])).1.m.2.err = [] := by
+  let w0 : World := ⟨splitLines [], [], []⟩
+  obtain ⟨s1, e1, t1, m1⟩ := T_push cat 0 1 0 0 rfl (St.init : St NumI) w0 rfl _ f_push0 zero_isNan
+  have hrep0 : RepP (St.init : St NumI) w0 [] [] := ⟨[], rfl, rfl, by intro l hl; cases hl⟩
+  obtain ⟨s2, w2, reach2, c2, o2, er2, p2, alt⟩ := cat_segA 1 (Or.inl rfl) s1 w0 m1.cur (by rw [t1]; rfl) [] (hrep0.same m1.st0 rfl)
+  rcases alt with ⟨c, r, hr, _, _⟩ | ⟨_, hx, hrp⟩
+  · cases hr
+  · have hpts : s2.points = [] := by rw [p2, m1.pts]; rfl
+    obtain ⟨s3, e3, c3, t3, z3, p3⟩ := cat_step5_nan s2 w2 c2 _ hx hpts
+    obtain ⟨s4, w4, reach4, c4, o4, er4, p4, alt4⟩ := cat_segA 6 (Or.inr rfl) s3 { w2 with out := w2.out ++ nanText } c3 t3 [] (hrp.same z3 rfl)
+    rcases alt4 with ⟨c, r, hr, _, _⟩ | ⟨_, hx4, _⟩
+    · cases hr
+    · obtain ⟨s5, reach5⟩ := (cat_segB s4 w4 c4 _ hx4 (by rw [p4]; exact p3)).2 rfl
+      obtain ⟨n, hn⟩ := ((((Reach.step (by decide) e1).trans reach2).trans (Reach.step (by decide) e3)).trans reach4).trans reach5
+      refine ⟨n, ?_⟩
+      have := runN_iterOk cat n _ _ hn 0
+      simp only [Nat.add_zero] at this
+      have e0 : initCfg [] = (⟨(St.init, w0), 0⟩ : Cfg NumI) := rfl
+      rw [e0, this]
+      simp only [runN, cat_len, Nat.lt_irrefl, ↓reduceIte]
+      refine ⟨trivial, ?_, ?_⟩
+      · show w4.out = _; rw [o4]; show w2.out ++ nanText = _; rw [o2]; simp [w0]
+      · show w4.err = _; rw [er4]; show w2.err = _; rw [er2]
+
+end HyE
